@@ -4,6 +4,7 @@ package main
 
 import (
 	"fmt"
+	"os"
 	"go/constant"
 	"go/token"
 	"go/types"
@@ -30,6 +31,9 @@ type exec struct {
 	variant0 map[*ssa.BasicBlock]string
 	loopPre  map[*ssa.BasicBlock]*State // pre-loop state of loops with a modifies clause
 	loopPreRef map[*ssa.BasicBlock]string // allocation counter when the loop was entered
+	loopPreSt  map[*ssa.BasicBlock]*State // state when the loop was entered
+	autoCands  map[*ssa.BasicBlock][]autoCand
+	readSet    *locSet // declared read footprint of the function under verification (nil: unchecked)
 	curBlock *ssa.BasicBlock
 	cur      string // reach condition of current block
 	retCount int
@@ -48,9 +52,44 @@ func posStr(fset *token.FileSet, p token.Pos) string {
 	return fmt.Sprintf("%s:%d", f, ps.Line)
 }
 
-// verifyFunction generates all obligations for fn under its contract.
+// verifyAgainstIface checks a method of an implementing type against the interface-level contract
+// (behavioural subtyping). Loop annotations come from the method's own contract when it has one.
+func (eng *Engine) verifyAgainstIface(fn *ssa.Function, ifc *FuncContract, own *FuncContract) *VC {
+	eff := *ifc
+	eff.Loops = map[int]*LoopSpec{}
+	if own != nil {
+		eff.Loops = own.Loops
+	}
+	eff.Props = ifc.Props
+	return eng.verifyHoudini(func(drop map[string]bool) *VC {
+	return eng.verifyFunctionTagged(fn, &eff, "@iface", func(vc *VC) {
+		vc.autoDrop = drop
+		vc.paramAlias = map[string]ssa.Value{}
+		if len(fn.Params) > 0 {
+			vc.paramAlias[ifc.RecvName] = fn.Params[0]
+			for i, n := range ifc.ParamNames {
+				if i+1 < len(fn.Params) {
+					vc.paramAlias[n] = fn.Params[i+1]
+				}
+			}
+		}
+	})
+	})
+}
+
 func (eng *Engine) verifyFunction(fn *ssa.Function, fc *FuncContract) *VC {
-	vc := newVC(eng, fn)
+	return eng.verifyHoudini(func(drop map[string]bool) *VC {
+		return eng.verifyFunctionTagged(fn, fc, "", func(vc *VC) { vc.autoDrop = drop })
+	})
+}
+
+// verifyFunctionTagged generates all obligations for fn under its contract.
+func (eng *Engine) verifyFunctionTagged(fn *ssa.Function, fc *FuncContract, tag string, init func(*VC)) (vc *VC) {
+	vc = newVC(eng, fn)
+	vc.tag = tag
+	if init != nil {
+		init(vc)
+	}
 	vc.contract = fc
 	if fc != nil {
 		vc.props = fc.Props
@@ -65,7 +104,7 @@ func (eng *Engine) verifyFunction(fn *ssa.Function, fc *FuncContract) *VC {
 		}
 	}()
 	ex := &exec{vc: vc, fn: fn, loopOf: map[*ssa.BasicBlock]*loopInfo{}, incoming: map[*ssa.BasicBlock][]edgeIn{},
-		reach: map[*ssa.BasicBlock]string{}, headSt: map[*ssa.BasicBlock]*State{}, variant0: map[*ssa.BasicBlock]string{}, loopPre: map[*ssa.BasicBlock]*State{}, loopPreRef: map[*ssa.BasicBlock]string{}}
+		reach: map[*ssa.BasicBlock]string{}, headSt: map[*ssa.BasicBlock]*State{}, variant0: map[*ssa.BasicBlock]string{}, loopPre: map[*ssa.BasicBlock]*State{}, loopPreRef: map[*ssa.BasicBlock]string{}, loopPreSt: map[*ssa.BasicBlock]*State{}, autoCands: map[*ssa.BasicBlock][]autoCand{}}
 	if len(fn.Blocks) == 0 {
 		vc.outside = "no body"
 		return vc
@@ -124,6 +163,13 @@ func (ex *exec) run() {
 			}
 		}
 		vc.probe("vacuity.requires", "true", "preconditions and type invariants are satisfiable")
+		if vc.contract.HasReads {
+			ls, err := ex.evalLocSet(env, vc.contract.Reads)
+			if err != nil {
+				ex.bail("reads clause: %v", err)
+			}
+			ex.readSet = ls
+		}
 	}
 	// block order: reverse postorder ignoring back edges
 	order := ex.rpo()
@@ -200,6 +246,7 @@ func (ex *exec) mergeIn(b *ssa.BasicBlock) (*State, string) {
 	st.nextRef = ex.mergeTerm("nextRef", "Int", ins, func(s *State) (string, bool) { return s.nextRef, true })
 	if !sameEpoch {
 		vc.epochBound[st.epoch] = st.nextRef
+		vc.epochBlk[st.epoch] = vc.curBlk
 	}
 	// locals
 	keys := map[*ssa.Alloc]bool{}
@@ -330,6 +377,7 @@ func (ex *exec) loopHead(li *loopInfo, st *State) {
 	spec := ex.loopSpec(li)
 	pos := posStr(vc.eng.fset, li.astNode.Pos())
 	ex.loopPreRef[li.header] = st.nextRef
+	ex.loopPreSt[li.header] = st.clone()
 	// 1. invariants hold on entry
 	if spec != nil {
 		env := ex.loopEnv(li, st)
@@ -380,6 +428,8 @@ func (ex *exec) loopHead(li *loopInfo, st *State) {
 	}
 	// automatically inferred frame facts (sound by construction):
 	ex.autoLoopFacts(li, pre, st)
+	// candidate invariants (Houdini): assumed here, checked at every back edge, dropped by the driver when a check fails
+	ex.autoCandidates(li, pre, st, modLocals)
 	// 3. assume invariants
 	if spec != nil {
 		env := ex.loopEnv(li, st)
@@ -856,6 +906,7 @@ func (ex *exec) instr(st *State, ins ssa.Instruction) {
 					ex.nilCheck(l.ref, "deref "+ex.describe(x.X), x.Pos())
 				}
 			}
+			ex.checkReadLoc(l, x.X, x.Pos())
 			v := ex.load(st, l)
 			ex.setVal(x, v.T)
 		case token.NOT:
@@ -918,7 +969,7 @@ func (ex *exec) instr(st *State, ins ssa.Instruction) {
 		et := x.Type().Underlying().(*types.Slice).Elem()
 		ref := vc.allocRef(st)
 		hi := vc.elemHeap(et)
-		vc.heapSet(st, hi, "(store "+vc.heapGet(st, hi)+" "+ref+" ((as const (Array Int "+hi.valSort+")) "+vc.sorts.zero(et)+"))")
+		vc.heapSet(st, hi, "(store "+vc.heapGet(st, hi)+" "+ref+" "+vc.constArray(hi.valSort, vc.sorts.zero(et))+")")
 		ex.setVal(x, "(mkSlice "+ref+" 0 "+n+" "+c+")")
 	case *ssa.MakeMap:
 		mt := x.Type().Underlying().(*types.Map)
@@ -1044,7 +1095,7 @@ func (ex *exec) zeroInit(st *State, ref string, t types.Type) {
 		}
 	case *types.Array:
 		hi := vc.elemHeap(u.Elem())
-		vc.heapSet(st, hi, "(store "+vc.heapGet(st, hi)+" "+ref+" ((as const (Array Int "+hi.valSort+")) "+vc.sorts.zero(u.Elem())+"))")
+		vc.heapSet(st, hi, "(store "+vc.heapGet(st, hi)+" "+ref+" "+vc.constArray(hi.valSort, vc.sorts.zero(u.Elem()))+")")
 	default:
 		hi := vc.derefHeap(t)
 		vc.heapSet(st, hi, "(store "+vc.heapGet(st, hi)+" "+ref+" "+vc.sorts.zero(t)+")")
@@ -1060,6 +1111,11 @@ func (ex *exec) edge(st *State, from, to *ssa.BasicBlock, cond string) {
 		}
 		spec := ex.loopSpec(li)
 		pos := posStr(vc.eng.fset, li.astNode.Pos())
+		if spec == nil {
+			for _, c := range ex.autoCands[li.header] {
+				vc.oblige(c.name, "auto", cond, c.check(st), "inferred candidate invariant", pos)
+			}
+		}
 		if spec != nil {
 			env := ex.loopEnv(li, st)
 			for i, c := range spec.Invariants {
@@ -1070,6 +1126,9 @@ func (ex *exec) edge(st *State, from, to *ssa.BasicBlock, cond string) {
 				for _, p := range parts {
 					vc.oblige(fmt.Sprintf("loop%d.preserved[%s]", li.ordinal, p.name), "loop", cond, p.t, c.Text, pos)
 				}
+			}
+			for _, c := range ex.autoCands[li.header] {
+				vc.oblige(c.name, "auto", cond, c.check(st), "inferred candidate invariant", pos)
 			}
 			if pre := ex.loopPre[li.header]; pre != nil {
 				ex.frameCheckAgainst(st, ex.headSt[li.header], pre, spec.Modifies, cond, fmt.Sprintf("loop%d.frame", li.ordinal), pos, li)
@@ -1535,4 +1594,122 @@ func (ex *exec) applyGhostExits(env *SpecEnv, fc *FuncContract, st *State, cond 
 	for _, u := range upds {
 		vc.heapSet(st, u.hi, u.term)
 	}
+}
+
+// ---------------------------------------------------------------------------
+// Inferred loop invariants (Houdini candidates)
+
+type autoCand struct {
+	name  string
+	check func(st *State) string // formula over a state
+}
+
+func (ex *exec) autoCandidates(li *loopInfo, pre, st *State, modLocals []*ssa.Alloc) {
+	vc := ex.vc
+	var ints, strs []*ssa.Alloc
+	for _, a := range modLocals {
+		if _, live := pre.locals[a]; !live {
+			continue
+		}
+		if a.Comment == "" || a.Comment == "rangeindex" {
+			continue
+		}
+		et := a.Type().(*types.Pointer).Elem()
+		if ii, ok := intInfoOf(et); ok && ii.bits != 0 {
+			ints = append(ints, a)
+		} else if vc.sorts.sortOf(et) == SStr {
+			strs = append(strs, a)
+		}
+	}
+	var cands []autoCand
+	add := func(kind string, names string, f func(st *State) string) {
+		name := fmt.Sprintf("loop%d.auto[%s:%s]", li.ordinal, kind, names)
+		if vc.autoDrop[vc.fkey+vc.tag+"#"+name] {
+			return
+		}
+		cands = append(cands, autoCand{name, f})
+	}
+	cur := func(st *State, a *ssa.Alloc) string { return st.locals[a] }
+	for _, a := range ints {
+		a := a
+		p := pre.locals[a]
+		add("ge", a.Comment, func(s *State) string { return "(>= " + cur(s, a) + " " + p + ")" })
+		add("le", a.Comment, func(s *State) string { return "(<= " + cur(s, a) + " " + p + ")" })
+	}
+	for _, sv := range strs {
+		sv := sv
+		p := pre.locals[sv]
+		add("bin", sv.Comment, func(s *State) string { return sImp("(gs.isbin "+p+")", "(gs.isbin "+cur(s, sv)+")") })
+		add("len", sv.Comment, func(s *State) string { return "(>= (gs.len " + cur(s, sv) + ") (gs.len " + p + "))" })
+		for _, a := range ints {
+			a := a
+			pa := pre.locals[a]
+			add("diff", sv.Comment+","+a.Comment, func(s *State) string {
+				return "(= (- (gs.len " + cur(s, sv) + ") " + cur(s, a) + ") (- (gs.len " + p + ") " + pa + "))"
+			})
+		}
+	}
+	ex.autoCands[li.header] = cands
+	for _, c := range cands {
+		vc.comment("assume candidate " + c.name)
+		vc.assume(ex.cur, c.check(st))
+	}
+}
+
+// verifyHoudini runs the generator until the set of inferred candidate invariants is inductive.
+func (eng *Engine) verifyHoudini(run func(drop map[string]bool) *VC) *VC {
+	drop := map[string]bool{}
+	var vc *VC
+	for round := 0; round < 5; round++ {
+		vc = run(drop)
+		if vc.outside != "" {
+			return vc
+		}
+		var autos []*Obligation
+		for _, o := range vc.obls {
+			if o.Kind == "auto" {
+				autos = append(autos, o)
+			}
+		}
+		if len(autos) == 0 {
+			return vc
+		}
+		scratch := scratchDir()
+		solveAll(autos, solveOpts{timeoutS: 3, scratch: scratch, workers: 12})
+		os.RemoveAll(scratch)
+		changed := false
+		for _, o := range autos {
+			if !o.ok() {
+				b := baseName(o.Name)
+				if !drop[b] {
+					drop[b] = true
+					changed = true
+				}
+			}
+		}
+		if !changed {
+			return vc
+		}
+	}
+	return vc
+}
+
+func (ex *exec) checkReadLoc(l *Loc, addr ssa.Value, pos token.Pos) {
+	if ex.readSet == nil {
+		return
+	}
+	if l.kind == locDeref && l.heap == "" {
+		// whole struct through a pointer: every field cell
+		if sty, ok := l.typ.Underlying().(*types.Struct); ok {
+			for i := 0; i < sty.NumFields(); i++ {
+				fl := ex.structRefField(l.ref, l.typ, i)
+				ex.checkReadLoc(fl, addr, pos)
+			}
+		} else if at, ok := l.typ.Underlying().(*types.Array); ok {
+			hi := ex.vc.elemHeap(at.Elem())
+			ex.checkRead(&Loc{kind: locElem, heap: hi.name, ref: l.ref}, ex.describe(addr), pos)
+		}
+		return
+	}
+	ex.checkRead(l, ex.describe(addr), pos)
 }
